@@ -427,8 +427,8 @@ func vfC13ShapeRoleClip(post *vfC13Model, held map[string]string, pos uint64) (s
 		for _, rn := range vfSortedKeys(roles) {
 			role := post.Roles[rn]
 			stamp := roles[rn]
-			if role == nil || !post.roleLive(rn) {
-				continue
+			if role == nil || !role.Exists {
+				continue // (a deleted role counts: its channel history is clipped to the assignment stamp just the same)
 			}
 			cur := post.roleChans(rn)
 			for _, x := range vfSortedKeys(role.Had) {
@@ -652,8 +652,11 @@ func TestVerif_C13_Known(t *testing.T) {
 				kit.KnownFinding("C13", rp.Sig, fmt.Sprintf("%s [reproduction: %s] -> %s", kit.KnownWhat("C13", rp.Sig), render, what))
 			case fail != nil:
 				kit.Note("C13", "reproduction of %s fails but the signature is not listed as open; the generated families decide: %s", rp.Sig, fail.What)
+			case !kit.Known("C13", rp.Sig):
+				rec.Class("reproductions.no-longer-failing", 1)
+				kit.Note("C13", "reproduction of %s no longer fails (%s): %s", rp.Sig, kit.KnownWhat("C13", rp.Sig), render)
 			default:
-				kit.Note("C13", "reproduction of %s holds now (finding repaired?): %s", rp.Sig, render)
+				kit.Note("C13", "reproduction of %s no longer fails although the finding is still listed as open (repaired? set its status to fixed): %s", rp.Sig, render)
 			}
 		})
 	}
